@@ -39,6 +39,8 @@ ATOMS = [
     "c = 1\nfor i in range(3):\n    b = b + c\n    if i:\n        c = c + i",   # 18 loop-carried, conditionally rebound, dead after loop
     "for i in range(2):\n    for j in range(2):\n        a += j\n    else:\n        continue\n    b += 1",  # 19 continue in inner loop's else
     "d = [(e := q + a) for q in range(2)]\nb = b + e",            # 20 walrus inside a comprehension binds in the function
+    "if p:\n    if p > 1:\n        b = b + 1\n    a = 7",          # 21 nested conditional, then a rebinding in the outer one
+    "if p == 1:\n    return\na += 1",                              # 22 guard clause with a bare return
 ]
 
 HOSTS = {
@@ -328,7 +330,7 @@ def regions(src, atom_ids, host):
 class C03(Check):
     pid = "C03"
     level = "exploration"
-    rule = ("cases = host bodies: every sequence of n statement atoms (21 atoms) in a function host, a method host, a module-level host and a class whose classmethod/staticmethod/regular sibling methods repeat the body; "
+    rule = ("cases = host bodies: every sequence of n statement atoms (23 atoms) in a function host, a method host, a module-level host and a class whose classmethod/staticmethod/regular sibling methods repeat the body; "
             "evaluations = one refactoring request per (body, region, refactoring, options): regions = every contiguous statement "
             "run at every nesting level + every sub-expression; ExtractMethod x similar{F,T} x global_{F,T} (function host) / "
             "kind{None,staticmethod?} and ExtractVariable x similar{F,T} for expressions; each performed result is compiled and "
